@@ -60,7 +60,11 @@ func ipList(names []string) []net.IP {
 
 const sentinel = "SENTINEL"
 
-func buildResult(c *tgtCase) ech.ResolveResult {
+// addlForm: how "no addresses known for the target name" is represented when the specification's list is empty -
+// 0: key present with an empty list, 1: key absent (what Resolver.Resolve leaves behind), 2: nil map
+func buildResult(c *tgtCase) ech.ResolveResult { return buildResultForm(c, 0) }
+
+func buildResultForm(c *tgtCase, addlForm int) ech.ResolveResult {
 	r := ech.ResolveResult{Port: uint16(c.Port), Address: ipList(c.Addrs)}
 	if len(c.Https) > 0 {
 		r.HTTPS = make([]dns.HTTPS, 0, len(c.Https)+2)
@@ -82,6 +86,14 @@ func buildResult(c *tgtCase) ech.ResolveResult {
 	}
 	if c.Addl != nil {
 		r.Additional = map[string][]net.IP{"target.example": ipList(c.Addl)}
+	}
+	if len(c.Addl) == 0 {
+		switch addlForm {
+		case 1:
+			r.Additional = map[string][]net.IP{"unrelated.example": {net.ParseIP("198.51.100.99")}}
+		case 2:
+			r.Additional = nil
+		}
 	}
 	return r
 }
@@ -133,12 +145,25 @@ func sameOut(a, b tgtOut) bool {
 }
 
 func checkTargets(c *tgtCase) (diff string) {
+	forms := 1
+	if len(c.Addl) == 0 {
+		forms = 3
+	}
+	for f := 0; f < forms; f++ {
+		if d := checkTargetsForm(c, f); d != "" {
+			return fmt.Sprintf("(Additional form %d) %s", f, d)
+		}
+	}
+	return ""
+}
+
+func checkTargetsForm(c *tgtCase, form int) (diff string) {
 	defer func() {
 		if p := recover(); p != nil {
 			diff = fmt.Sprint("panic: ", p)
 		}
 	}()
-	r := buildResult(c)
+	r := buildResultForm(c, form)
 	before := deepCopy(r)
 	// a consumer that keeps the yielded targets and looks at them after the enumeration
 	var kept []ech.Target
